@@ -550,8 +550,22 @@ func GetSegPerc(runningSegStat *structs.SegStats, currSegStat *structs.SegStats,
 		return &res, fmt.Errorf("GetSegPerc: percentile not between the valid range")
 	}
 
+	// a segment without numeric values in the column has no digest
+	if currSegStat.TDigest == nil {
+		if runningSegStat != nil && runningSegStat.TDigest != nil {
+			res.FloatVal = runningSegStat.TDigest.GetQuantile(fltPercentileVal)
+		}
+		return &res, nil
+	}
+
 	if runningSegStat == nil {
 		res.FloatVal = currSegStat.TDigest.GetQuantile(fltPercentileVal)
+		return &res, nil
+	}
+
+	if runningSegStat.TDigest == nil {
+		runningSegStat.TDigest = currSegStat.TDigest
+		res.FloatVal = runningSegStat.TDigest.GetQuantile(fltPercentileVal)
 		return &res, nil
 	}
 
